@@ -7,7 +7,7 @@ open IcyVerif.IcyDraw IcyVerif.Drv
 
 def failName : Fail → String
   | .errLength => "errLength" | .errOob => "errOob" | .errMode => "errMode" | .errHeader => "errHeader"
-  | .errCodec => "errCodec" | .panic => "panic" | .abortChar => "abortChar" | .imageLayer => "imageLayer"
+  | .errCodec => "errCodec" | .panic => "panic" | .imageLayer => "imageLayer"
   | .negSize => "negSize"
 
 def nat? (s : String) : Option Nat := s.toNat?
